@@ -25,10 +25,10 @@ from ..drivers import tapedrv
 
 PID = 'C11'
 MODELS = {
-    'quick': (('TapeMC', 'Tape_mc.cfg', 0), ('TapeMC3', 'Tape_mc3.cfg', 0)),
-    # (module, cfg, number of tapes replayed into the real code; 0 = every tape of the model)
-    'thorough': (('TapeMC', 'Tape_mc.cfg', 0), ('TapeMC3', 'Tape_mc3.cfg', 0), ('TapeMC1', 'Tape_mc1.cfg', 0),
-                 ('TapeMC2', 'Tape_mc2.cfg', 12000)),
+    # (module, cfg, TLC workers): every tape of each model is also replayed into the real code
+    # (TLC evaluates the alphabet once per worker, ~8 s for the 18420 blocks of TapeMC1: few workers there)
+    'quick': (('TapeMC', 'Tape_mc.cfg', 8), ('TapeMC3', 'Tape_mc3.cfg', 8)),
+    'thorough': (('TapeMC', 'Tape_mc.cfg', 4), ('TapeMC3', 'Tape_mc3.cfg', 4), ('TapeMC1', 'Tape_mc1.cfg', 4), ('TapeMC2', 'Tape_mc2.cfg', 8)),
 }
 EDGE_FIELDS = ('kind', 'blocks', 'fe', 'gpol', 'expect', 'exc', 'first', 'runs', 'ranges')
 FILE_FIELDS = ('fmt', 'raw', 'start', 'stop', 'skip', 'exc', 'parsed', 'warn', 'info', 'infoexc', 'writer', 'wdata', 'wexc')
@@ -198,28 +198,25 @@ def run(tier):
     pool = mp.get_context('fork').Pool(16)
     try:
         # ---- (A) the specification itself, in the background ------------------------------------------------------------------
-        mcs = [(m, cfg, _threaded(_mc, m, cfg, 8 if quick else 6)) for m, cfg, _ in models]
+        mcs = [(m, cfg, _threaded(_mc, m, cfg, w)) for m, cfg, w in models]
         # ---- (C) every tape of the bounded models -> real get_edges ------------------------------------------------------------
-        dumps = [(m, nrep, _threaded(_dump, m, cfg, wd)) for m, cfg, nrep in models]
+        dumps = [(m, _threaded(_dump, m, cfg, wd)) for m, cfg, _ in models]
         fjobs = _file_jobs(tier, rng)
         fasync = pool.map_async(tapedrv.file_worker, [(sd * 1009 + k, k, fjobs[k::16], wd) for k in range(16)], chunksize=1)
-        nedge = 150 if quick else 3000
+        nedge = 400 if quick else 4000
         easync = pool.map_async(tapedrv.edge_worker, [(sd * 7919 + k, nedge) for k in range(16)], chunksize=1)
         rasync = []
         replayed = {}
-        for m, nrep, (t, box) in dumps:
+        for m, (t, box) in dumps:
             al = _join(t, box)
             tapes = list(tapedrv.enumerate_tapes(len(al['alphabet']), al['maxblocks']))
-            total = len(tapes)
-            if nrep and total > nrep:
-                tapes = rng.sample(tapes, nrep)
-            replayed[m] = [len(tapes), total, len(al['alphabet']), al['maxblocks'], 0]
+            replayed[m] = [len(tapes), len(al['alphabet']), al['maxblocks'], 0]
             per = max(1, (len(tapes) + 63) // 64)
             rasync.append(pool.map_async(tapedrv.replay_worker, [(m, al['alphabet'], tapes[i:i + per], al['firstedges'], al['gpols'])
                                                                  for i in range(0, len(tapes), per)], chunksize=1))
         rcases = [c for a in rasync for p in a.get() for c in p]
         for c in rcases:
-            replayed[c['family']][4] += 1
+            replayed[c['family']][3] += 1
         ecases = [c for p in easync.get() for c in p]
         fcases = [c for p in fasync.get() for c in p]
     finally:
@@ -286,10 +283,10 @@ def run(tier):
     rep.sample({k: ecases[0][k] for k in ('family', 'key', 'blocks', 'fe', 'gpol', 'first', 'runs', 'ranges')})
     x = next(c for c in fcases if c['key'] == 'xfmt')
     rep.sample({'key': 'xfmt', 'files': [dict(fmt=f['fmt'], raw_hex=bytes(f['raw']).hex()[:200], edges=f['sig']['n']) for f in x['files']]})
-    rep.extra['model_tapes_replayed'] = {m: dict(tapes=a, of=b, alphabet=n, maxblocks=mb, get_edges_calls=k,
-                                                 note='tapes no file format can express (PZX sample data followed by a block without '
-                                                      'a stated level) are left out')
-                                         for m, (a, b, n, mb, k) in replayed.items()}
+    rep.extra['model_tapes_replayed'] = {m: dict(tapes=a, alphabet=n, maxblocks=mb, get_edges_calls=k,
+                                                 note='every tape x first_edge x polarity; tapes no file format can express (PZX '
+                                                      'sample data followed by a block without a stated level) are left out')
+                                         for m, (a, n, mb, k) in replayed.items()}
     rep.extra['classes_exercised'] = {k: v for k, v in sorted(seen.items())}
     rep.rule = ('edges: every tape of the bounded models (alphabets written by TLC) x first_edge x polarity replayed into the real get_edges, '
                 'plus random TZX-/PZX-expressible tapes of up to 6 blocks with widths up to 65535; files: families writers (real write_tap/'
